@@ -49,7 +49,7 @@ func cfgOf(id string) propCfg {
 		c.Fuzz = []string{"FuzzC19"}
 	case "C16":
 		c.Race = true
-		c.ShardsQuick, c.ShardsThor = 4, 8
+		c.ShardsQuick, c.ShardsThor = 16, 16
 	}
 	return c
 }
@@ -144,6 +144,9 @@ func main() {
 	}
 
 	bin := filepath.Join(work, "props.test")
+	if cfg.Race {
+		raceLogDir = work
+	}
 	if msg := build(bin, repo, work, cfg.Race, false); msg != "" {
 		fmt.Fprintln(os.Stderr, msg)
 		fmt.Printf("INCONCLUSIVE property=%s build of harness against %s failed\n", id, repo)
@@ -241,6 +244,7 @@ func main() {
 				"VERIF_TIER=" + tier, "VERIF_SEED=" + strconv.FormatInt(seed, 10),
 				"VERIF_SHARD=" + strconv.Itoa(i), "VERIF_SHARDS=" + strconv.Itoa(n),
 				"VERIF_FRAG=" + frag, "VERIF_REPLAY_DIR=" + replayDir, "VERIF_KF=" + kf,
+				"VERIF_CURRENT_CASE=" + filepath.Join(work, fmt.Sprintf("shard%02d.current", i)),
 			}, timeout+2*time.Minute)
 			f, ok := readFrag(frag)
 			results[i] = res{out, code, f, ok}
@@ -253,6 +257,18 @@ func main() {
 	var hashFiles []string
 	for i, r := range results {
 		if !r.ok || !r.frag.Done {
+			// a process killed by the Go runtime while running a recorded case (concurrent map
+			// access, unrecovered panic in a goroutine of the library): the case is the violation
+			cur := filepath.Join(work, fmt.Sprintf("shard%02d.current", i))
+			if data, err := os.ReadFile(cur); err == nil && r.code != -2 && (strings.Contains(r.out, "fatal error:") || strings.Contains(r.out, "DATA RACE") || strings.Contains(r.out, "panic:")) {
+				os.MkdirAll(replayDir, 0o755)
+				rf := map[string]any{"property": id, "kind": "workload", "msg": tail(r.out, 8), "case": json.RawMessage(data)}
+				b, _ := json.MarshalIndent(rf, "", " ")
+				path := filepath.Join(replayDir, fmt.Sprintf("workload-crash-%016x.json", ev.Hash(string(data))))
+				os.WriteFile(path, b, 0o644)
+				violations = append(violations, ev.Violation{Replay: path, Msg: "test process killed by the Go runtime during this workload:\n" + firstFatal(r.out)})
+				continue
+			}
 			inconclusive = fmt.Sprintf("shard %d did not finish (exit %d)", i, r.code)
 			fmt.Fprintln(os.Stderr, tail(r.out, 60))
 			continue
@@ -331,6 +347,15 @@ func main() {
 	exit(0)
 }
 
+func firstFatal(out string) string {
+	for _, l := range strings.Split(out, "\n") {
+		if strings.Contains(l, "fatal error:") || strings.Contains(l, "DATA RACE") || strings.HasPrefix(l, "panic:") {
+			return strings.TrimSpace(l)
+		}
+	}
+	return tail(out, 3)
+}
+
 func indent(s string) string { return "    " + strings.ReplaceAll(s, "\n", "\n    ") }
 
 func tail(s string, n int) string {
@@ -374,12 +399,18 @@ func build(bin, repo, work string, race, fuzz bool) string {
 	return ""
 }
 
+var raceLogDir string // set when the property's binary is built with -race
+
 func runTest(bin, cwd string, args, env []string, timeout time.Duration) (string, int) {
 	ctx, cancel := context.WithTimeout(context.Background(), timeout)
 	defer cancel()
 	cmd := exec.CommandContext(ctx, bin, args...)
 	cmd.Dir = cwd
 	cmd.Env = append(os.Environ(), env...)
+	if raceLogDir != "" {
+		prefix := filepath.Join(raceLogDir, fmt.Sprintf("race-%d", time.Now().UnixNano()))
+		cmd.Env = append(cmd.Env, "GORACE=log_path="+prefix+" halt_on_error=0", "VERIF_RACE_LOG="+prefix)
+	}
 	var buf bytes.Buffer
 	cmd.Stdout = &buf
 	cmd.Stderr = &buf
